@@ -126,6 +126,7 @@ type builder struct {
 	partials map[string][]model.Node
 	seq      int
 	repeat   map[int]bool // levels whose construct is entered twice
+	replay   bool         // a block of literal text stored at top level is replayed with contentOf at every deeper level, before that level's lets
 }
 
 func (b *builder) next(prefix string) string {
@@ -199,7 +200,14 @@ func (b *builder) nest(kinds []int, level int, binds []string) []model.Node {
 	lv := fmt.Sprintf("L%d", level)
 	var out []model.Node
 	out = append(out, T(fmt.Sprintf("<%d:", level)))
+	if b.replay && level == 0 {
+		out = append(out, model.ContentFor{Name: "topblock", Body: []model.Node{T("(stored)")}})
+	}
 	out = append(out, probes(all...)...)
+	if b.replay && level > 0 {
+		// replaying a block stored in an OUTER scope must not disturb where this scope's later bindings go
+		out = append(out, model.EmitContentOf{Name: "topblock", Data: []model.KV{}})
+	}
 	out = append(out, let("x", "x"+lv)) // shadows / rebinds x at this level
 	if level%2 == 1 {
 		out = append(out, let("y", "y"+lv))
@@ -222,9 +230,10 @@ func (b *builder) nest(kinds []int, level int, binds []string) []model.Node {
 // ---- random generator ---------------------------------------------------------------------
 
 type rgen struct {
-	t *rapid.T
-	b *builder
-	n int
+	t      *rapid.T
+	b      *builder
+	n      int
+	replay bool
 }
 
 func (g *rgen) nodes(depth int) []model.Node {
@@ -239,7 +248,11 @@ func (g *rgen) nodes(depth int) []model.Node {
 			g.n++
 			out = append(out, let(rapid.SampledFrom(names).Draw(t, "ln"), fmt.Sprintf("V%d", g.n)))
 		case k == 6:
-			out = append(out, T("."))
+			if g.replay {
+				out = append(out, model.EmitContentOf{Name: "topblock", Data: []model.KV{}})
+			} else {
+				out = append(out, T("."))
+			}
 		default:
 			if depth > 0 {
 				g.n++
@@ -260,7 +273,7 @@ func (g *rgen) nodes(depth int) []model.Node {
 	return out
 }
 
-const rule = "scope constructs {for, user function defined and called on the spot, partial with data, contentFor + contentOf with data in one scope, block helper rendering its block with BlockWith on a fresh child context}; names {x, y, v, p, k} bound by let (fresh and shadowing), and through the construct itself (loop variable / parameter / data key equal to a name that is let-bound outside); probes <%= if (n) { %>[n=<%= n %>]<% } else { %>[n=-]<% } %> for every name before, inside and after each construct. (E) every nesting of 1, 2 and 3 constructs (5 + 25 + 125) x 4 binding patterns x every subset of levels whose construct is ENTERED TWICE (wrapped in a two-iteration loop that binds nothing else), with a fixed let/probe pattern at every level; (R) random let/probe/construct sequences nested to depth 3. Oracle: environment-chain reference interpreter (each construct is a child scope; lets and bound names vanish when it ends; outer names stay readable and unchanged; top-level let persists). Non-trivial: every case nests at least one construct (distinct by template + partial texts)."
+const rule = "scope constructs {for, user function defined and called on the spot, partial with data, contentFor + contentOf with data in one scope, block helper rendering its block with BlockWith on a fresh child context}; names {x, y, v, p, k} bound by let (fresh and shadowing), and through the construct itself (loop variable / parameter / data key equal to a name that is let-bound outside); probes <%= if (n) { %>[n=<%= n %>]<% } else { %>[n=-]<% } %> for every name before, inside and after each construct. (E) every nesting of 1, 2 and 3 constructs (5 + 25 + 125) x 4 binding patterns x every subset of levels whose construct is ENTERED TWICE (wrapped in a two-iteration loop that binds nothing else), with a fixed let/probe pattern at every level; in half of them a block of literal text stored at top level is replayed with contentOf inside every deeper scope before that scope's lets; (R) random let/probe/construct sequences nested to depth 3. Oracle: environment-chain reference interpreter (each construct is a child scope; lets and bound names vanish when it ends; outer names stay readable and unchanged; top-level let persists). Non-trivial: every case nests at least one construct (distinct by template + partial texts)."
 
 func setup(t *testing.T) *vk.Run {
 	r := vk.Start(t, "C09", rule,
@@ -319,7 +332,7 @@ func TestProp(t *testing.T) {
 						continue
 					}
 					if r.Mine(cells) {
-						b := &builder{partials: map[string][]model.Node{}, repeat: map[int]bool{}}
+						b := &builder{partials: map[string][]model.Node{}, repeat: map[int]bool{}, replay: (code+mask)%2 == 1}
 						for l := 0; l < depth; l++ {
 							b.repeat[l] = mask&(1<<l) != 0
 						}
@@ -343,7 +356,11 @@ func TestProp(t *testing.T) {
 
 	r.Rapid("random", r.Pick(3000, 40000), func(t *rapid.T) *vk.Fail {
 		g := &rgen{t: t, b: &builder{partials: map[string][]model.Node{}}}
+		g.replay = rapid.Bool().Draw(t, "replay")
 		prog := g.nodes(3)
+		if g.replay {
+			prog = append([]model.Node{model.ContentFor{Name: "topblock", Body: []model.Node{T("(stored)")}}}, prog...)
+		}
 		return run(r, prog, g.b.partials, "random")
 	})
 }
